@@ -5,23 +5,29 @@ From KV Require Import Base.IEEE Base.Outcome Base.Num C06.Model C06.Dur C06.Pro
 Import ListNotations.
 Local Open Scope Z_scope.
 
-(** a guarded history with nested tracks, a send track, a delay with a nested probe, two rate changes *)
-Definition h_guarded : list op :=
+(** a history with nested tracks, a send track, a delay with a nested probe, rate changes that fall while tracks
+    are queued (sub, nested below a queued parent, send) and between a load and its enqueue *)
+Definition h_mixed : list op :=
   [G_load 0 DSub (1, [SEff 0 KProbe []; SEff (-1) (KDelay 3000000) [SEff 1 KProbe []]]); G_enqueue 0;
-   G_load 1 DSend (2, [SEff 2 KProbe []]); G_enqueue 1; A_callback 6;
-   G_load 0 (DUnder 1) (3, [SEff 3 KProbe []]); G_enqueue 0; A_callback 3; A_change 2000; A_callback 9;
-   G_load 0 DSub (4, [SEff 4 KProbe []]); A_callback 2; G_enqueue 0; A_callback 5; A_change 2000; A_change 3000; A_callback 4]%Z.
-Example guarded_history_nonvacuous :
-  no_race fo0 (init_state 1000 4 [SEff 5 KProbe []]) h_guarded = true /\
-  all_in_forceb fo0 (init_state 1000 4 [SEff 5 KProbe []]) h_guarded = true /\
-  length (snd (run fo0 (init_state 1000 4 [SEff 5 KProbe []]) h_guarded)) = 52%nat.
-Proof. vm_compute. repeat split. Qed.
+   G_load 1 DSend (2, [SEff 2 KProbe []]); G_enqueue 1; A_change 2000; A_callback 6;
+   G_load 0 (DUnder 1) (3, [SEff 3 KProbe []]); G_enqueue 0; A_change 500; A_callback 3; A_change 2000; A_callback 9;
+   G_load 0 DSub (4, [SEff 4 KProbe []]); A_change 3000; A_callback 2; G_enqueue 0;
+   G_load 1 (DUnder 4) (6, [SEff 6 KProbe []]); A_change 1000; G_enqueue 1; A_callback 5;
+   A_change 2000; A_change 3000; A_callback 4]%Z.
+Example mixed_history_nonvacuous :
+  all_in_forceb fo0 (init_state 1000 4 [SEff 5 KProbe []]) h_mixed = true /\
+  all_in_forceb_unrepaired fo0 (init_state 1000 4 [SEff 5 KProbe []]) h_mixed = false /\
+  length (snd (run fo0 (init_state 1000 4 [SEff 5 KProbe []]) h_mixed)) = 57%nat /\
+  Inv (fst (run fo0 (init_state 1000 4 [SEff 5 KProbe []]) h_mixed)).
+Proof. split; [vm_compute; reflexivity|]. split; [vm_compute; reflexivity|]. split; [vm_compute; reflexivity|]. apply run_Inv, Inv_init. Qed.
 
-(** the un-guarded theorem says something: in this history one track raced, the others did not *)
-Example raced_ids_example :
-  let s := fst (run fo0 (init_state 1000 4 []) (h_add_change_cb ++ [G_load 0 DSub (2, [SEff 7 KProbe []]); G_enqueue 0; A_callback 4]%Z)) in
-  flat_map raced_ids (s_subs s ++ s_sends s) = [0%Z] /\ s_rate s = 2000%Z.
-Proof. vm_compute. split; reflexivity. Qed.
+(** the hypothesis of [pickup_syncs] is met by a state in which a queued track remembers a rate that is not in
+    force (1000 vs 2000), and the conclusion is not trivial there: its probe is told 2000 at pick-up *)
+Example pickup_syncs_example :
+  let s := fst (run fo0 (init_state 1000 4 []) [G_load 0 DSub probe_track; G_enqueue 0; A_change 2000]%Z) in
+  fa coherent (all_tracks s) /\ map trk_rate (s_subq s) = [1000%Z] /\ s_mix s = 2000%Z /\
+  s_subs (fst (step fo0 s (A_callback 1))) = [Trk 1 2000 [Eff 0 KProbe [(ByChange, 2000%Z); (ByInit, 1000%Z)] []] [] []].
+Proof. vm_compute. repeat split; reflexivity. Qed.
 
 Local Open Scope Q_scope.
 (** 4 frames at 44.1 kHz then 1 frame at 11.025 kHz are 8/44100 s: a 22.05 kHz sound has advanced exactly 4 frames,
